@@ -1,6 +1,7 @@
 import PyPhysim.Proofs.C17Files
 import PyPhysim.Proofs.C17Ops
 import PyPhysim.Proofs.C17Robust
+import PyPhysim.Proofs.C17Gen
 
 /-!
 # C17 — saving and loading parameters and results loses nothing
@@ -507,5 +508,125 @@ theorem later_save_same_name_wins (fr : Nat → PyFloat → String) (st0 st1 st2
       injection h2 with hb hc
       subst ha; subst hb; subst hc
       exact hl
+
+open PyPhysim.Generated
+
+/-! ## the structure regenerated from the source (`Generated/C17Fields.lean`) -/
+
+/-- R1 (tie): the dictionaries the model's `_to_dict` functions build are exactly the
+    ones the (key, attribute) tables regenerated from the source describe — same keys,
+    same order, each value the attribute the source takes it from. -/
+theorem generated_field_tables_match_model :
+    (∀ r : Result, (dictOf r.attr C17Fields.resultWrites).map PyVal.dict = some (resultToDict r)) ∧
+    (∀ (n : Node) (rest : Chain),
+      (dictOf (chainAttr n rest) C17Fields.paramsWrites).map PyVal.dict = some (paramsToDict (n :: rest))) ∧
+    (∀ s : SimResults, (dictOf s.attr C17Fields.simWrites).map PyVal.dict = some (simToDict s)) ∧
+    C17Fields.choiceTypeCode = 3 := by
+  refine ⟨fun r => rfl, fun n rest => rfl, fun s => rfl, rfl⟩
+
+/-- R1 (tie): writer and reader tables of the source are mutually consistent: every key
+    written is read back into the attribute it came from and nothing else is read (a
+    field dropped or renamed on one side, or read into another attribute, makes this
+    false).  The replay path of `Result._from_dict` stores or replays written keys only
+    and rebuilds the four attributes it does not store. -/
+theorem generated_fields_round_trip :
+    tablesAgree C17Fields.resultWrites C17Fields.resultReadsPlain = true ∧
+    choiceAgree C17Fields.resultWrites C17Fields.resultReadsChoice
+      ["_value", "_total", "_result_sum", "_result_squared_sum", "num_updates", "_total_list"] = true ∧
+    tablesAgree C17Fields.simWrites C17Fields.simReads = true ∧
+    tablesAgree C17Fields.paramsWrites C17Fields.paramsReads = true ∧
+    C17Fields.resultDispatchKeys = ["update_type_code", "value"] := by
+  refine ⟨by decide, by decide, by decide, by decide, by decide⟩
+
+/-- R1 (tie): the model's `_from_dict` functions put each key where the reader tables of
+    the source say: after reading a dictionary, the attribute named by the table holds
+    the value found under the key. -/
+theorem generated_reader_tables_match_model :
+    (∀ r : Result, r.typeCode ≠ 3 →
+      ∃ r', resultFromDict (resultToDict r) = .ok r' ∧
+        ∀ p ∈ C17Fields.resultReadsPlain, r'.attr p.2 = lookupV p.1 (resultToDict r)) ∧
+    (∀ (r : Result) (dt : String) (cs : List PyVal) (counts : List Int), r.typeCode = 3 →
+      r.value = .ndarray dt [counts.length] (.list cs) → intList cs = some counts →
+      ∃ r', resultFromDict (resultToDict r) = .ok r' ∧
+        r' = choiceReplay r.name r.acc counts r.valueList ∧
+        ∀ p ∈ C17Fields.resultReadsChoice,
+          if isSpecial p.2 then p.1 = "value" else r'.attr p.2 = lookupV p.1 (resultToDict r)) ∧
+    (∀ (n : Node) (rest : Chain) (fuel : Nat), (n :: rest).length ≤ fuel →
+      paramsFromDict fuel (paramsToDict (n :: rest)) = .ok (n :: rest) ∧
+        ∀ p ∈ C17Fields.paramsReads, chainAttr n rest p.2 = lookupV p.1 (paramsToDict (n :: rest))) ∧
+    (∀ (s : SimResults) (fuel : Nat), goodSim s → s.params.length ≤ fuel →
+      ∃ s', simFromDict fuel (norm (simToDict s)) = .ok s' ∧
+        ∀ p ∈ C17Fields.simReads, s'.attr p.2 = lookupV p.1 (norm (simToDict s))) := by
+  refine ⟨?_, ?_, ?_, ?_⟩
+  · intro r ht
+    refine ⟨r, ?_, ?_⟩
+    · rw [result_keys]
+      have : (r.typeCode == 3) = false := beq_false_of_ne ht
+      simp [this]
+    · intro p hp
+      simp only [C17Fields.resultReadsPlain, List.mem_cons, List.mem_nil_iff, or_false] at hp
+      rcases hp with rfl | rfl | rfl | rfl | rfl | rfl | rfl | rfl | rfl | rfl <;> rfl
+  · intro r dt cs counts ht hv hc
+    refine ⟨choiceReplay r.name r.acc counts r.valueList, ?_, rfl, ?_⟩
+    · rw [result_keys]
+      have : (r.typeCode == 3) = true := by simp [ht]
+      simp [this, hv, hc, isIterable]
+    · intro p hp
+      simp only [C17Fields.resultReadsChoice, List.mem_cons, List.mem_nil_iff, or_false] at hp
+      rcases hp with rfl | rfl | rfl | rfl | rfl | rfl
+      · rfl
+      · rfl
+      · show (choiceReplay r.name r.acc counts r.valueList).attr "_update_type_code" = _
+        simp [choiceReplay, Result.attr, lookupV, resultToDict, lookup, ht]
+      · rfl
+      · rfl
+      · rfl
+  · intro n rest fuel hf
+    refine ⟨paramsFromDict_toDict _ _ (by simp) hf, ?_⟩
+    intro p hp
+    simp only [C17Fields.paramsReads, List.mem_cons, List.mem_nil_iff, or_false] at hp
+    rcases hp with rfl | rfl | rfl | rfl <;> rfl
+  · intro s fuel h hf
+    refine ⟨s.norm, sim_dict_roundtrip s fuel h hf, ?_⟩
+    intro p hp
+    rw [← simToDict_norm]
+    simp only [C17Fields.simReads, List.mem_cons, List.mem_nil_iff, or_false] at hp
+    rcases hp with rfl | rfl | rfl | rfl | rfl <;> rfl
+
+/-- R1 (tie): a key read with a default (`d.get(key, default)`) is `current_rep`, default
+    `-1`, as in the model: a dictionary written before the key existed loads with it. -/
+theorem generated_default_matches_model (n : Node) (rr ofn : PyVal) :
+    C17Fields.simReadDefaults = [("current_rep", -1)] ∧
+    (simFromDict 1 (.dict [("params", paramsToDict [n]), ("runned_reps", rr), ("original_filename", ofn),
+        ("results", .dict [])])).map (·.currentRep) = .ok (.int (-1)) := by
+  refine ⟨rfl, ?_⟩
+  have h := paramsFromDict_toDict [n] 1 (by simp) (by simp)
+  simp [simFromDict, lookup, resultsFromKVs, h, Except.map]
+
+/-- R1 (tie): the decision ladder of `NumpyOrSetEncoder.default` regenerated from the
+    source (test order, class accepted by each branch, JSON form returned) yields, for
+    every value of the five classes it handles, exactly what the model's `enc` yields. -/
+theorem generated_encoder_ladder_matches_model (v : PyVal) (h : (classOf v).isSome = true) :
+    runLadder C17Fields.encLadder v = some (enc v) := by
+  cases v <;> first | (simp [classOf] at h; done) | rfl | simp [runLadder, C17Fields.encLadder, classOf, applyForm, fieldsJson, fieldJson, enc]
+
+/-- R1 (tie): the tests of `json_numpy_or_set_obj_hook` regenerated from the source are
+    the model's `objHook`: a dictionary holding a mark set to `True` and the keys the
+    source reads is rebuilt as the model rebuilds it, a mark that is not `True` is
+    refused; and encoder and hook agree on marks and keys (a key renamed on one side
+    makes this false). -/
+theorem generated_hook_matches_model (val : String → PyVal) :
+    (∀ e ∈ C17Fields.hookLadder,
+      objHook ((e.1, .bool true) :: e.2.2.map (fun k => (k, val k))) = rebuild e.2.1 val ∧
+      objHook [(e.1, .bool false)] = raise .ValueError) ∧
+    encHookAgree C17Fields.encLadder C17Fields.hookLadder = true ∧
+    C17Fields.hookLadder.map (·.1) = ["_is_numpy_array", "_is_set"] := by
+  refine ⟨?_, by decide, rfl⟩
+  intro e he
+  simp only [C17Fields.hookLadder, List.mem_cons, List.mem_nil_iff, or_false] at he
+  rcases he with rfl | rfl <;> exact ⟨rfl, rfl⟩
+
+example : (classOf (.npfloat 32 (.fin 1 2))).isSome = true := rfl
+example : ∃ r : Result, r.typeCode ≠ 3 := ⟨{ (default : Result) with typeCode := 0 }, by decide⟩
 
 end PyPhysim.C17
